@@ -37,10 +37,10 @@ def run(ctx):
         n_reg += 1
         raw, une = f.params[0]["did"], f.params[1]["did"]
         t_une = taint_closure(f, {une})
-        t_raw = taint_closure(f, {raw}) - t_une
+        t_raw = taint_closure(f, {raw})            # anything the raw (still escaped) token flows into
         for i, c in enumerate(dd):
             a = arg_nodes(c)[0]
-            ok = mentions(a, t_une) and not mentions(a, {raw})
+            ok = mentions(a, t_une) and not mentions(a, t_raw)
             r.check(ok, "%s|key-from-unescaped#%d" % (where, i), "", "dependency key is built from %s" % expr_str(a)[:60], f, c)
         is_shell = "buildsystem::ShellCommand::processMakefile" in f.key
         if is_shell or "NinjaBuildCommand" in relpath(f.file):
